@@ -130,9 +130,9 @@ CHECKS = {
  },
  'C18': {
   'engine': 'V+K', 'design_ref': 'DESIGN.md §5 C18',
-  'technique': 'Verus proof of the numeric tables (enums and TryFrom impls verbatim); Kani proofs of the four string tables over all strings up to 20 bytes and of the bitflags constants',
-  'text': 'Numeric identifiers (PIN sub-commands, CM sub-commands, credProtect, control bytes, 55 status codes, command bytes): exact numbers, pairwise distinct, everything else rejected — unbounded Verus proof. String identifiers: try_from(s) is Ok(v) iff s equals v\'s spelling byte for byte, for every s up to 20 bytes. Permission and flag bits on the real bitflags types.',
-  'note': 'serde_repr rejecting other numbers on the wire: A2; strings longer than 20 bytes cannot equal a <= 17 byte constant (A11).',
+  'technique': 'Verus proof of the numeric tables (enums and TryFrom impls verbatim) and of the four string tables (enums, constants, From<X> for &str and TryFrom<&str> for X verbatim) for strings of any length; Kani proofs of the string tables over all strings up to 20 bytes (backstop with counterexamples) and of the bitflags constants',
+  'text': 'Numeric identifiers (PIN sub-commands, CM sub-commands, credProtect, control bytes, 55 status codes, command bytes): exact numbers, pairwise distinct, everything else rejected — unbounded Verus proof. String identifiers (versions, extensions, transports, attestation formats): encoding gives exactly the specification spelling, try_from(s) is Ok(v) iff s equals v\'s spelling, every other string of any length is rejected — unbounded Verus proof on the verbatim impls (plus Kani for every s up to 20 bytes). Permission and flag bits on the real bitflags types.',
+  'note': 'serde_repr rejecting other numbers on the wire: A2; Verus string tables assume that equality of &str values (constant patterns) is equality of contents (axiom_str_eq_is_content_eq) and are checked in the default cfg (a cfg-gated arm is evaluated as without features); Kani: strings longer than 20 bytes cannot equal a <= 17 byte constant (A11).',
  },
  'C19': {
   'engine': 'V+K', 'design_ref': 'DESIGN.md §5 C19, §10.4h',
